@@ -452,3 +452,78 @@ func TestVerifC20ManyInstances(t *testing.T) {
 	rep.Sample(map[string]any{"encoding": "snappy", "history": []string{"new#0", "reset#0", "half#0", "rest#0", "close#0", "new#1", "reset#1", "park#0", "reset#0", "half#1", "rest#1"}, "expect": "instance 1 reads its own message although instance 0 was closed, parked and reset in between"})
 	rep.RequireMin("many_instances_reads_ok", 500)
 }
+
+// TestVerifC20LargeAfterReuse: size does not matter to a reused instance: a
+// message that decodes to many MiB (but is small on the wire) is decoded by a
+// decompressor that was closed and parked before, from the source types the
+// RPC library uses.
+func TestVerifC20LargeAfterReuse(t *testing.T) {
+	rep := verifkit.Begin("C20", "large-after-reuse", "6 encodings x {fresh, used-closed-parked once, twice} decompressor x decoded sizes {1, 9, 33 MiB of zeros, 12 MiB of a repeating pattern} x source {*bytes.Buffer, *bytes.Reader, io.Reader wrapper}; the matching compressor instance is reused as well; oracle: decoded length and checksum equal the original; distinct = (encoding, history, size, source)")
+	defer rep.Write()
+	sizes := []int{1 << 20, 9 << 20, 33 << 20}
+	if !verifkit.Thorough() {
+		sizes = []int{9 << 20}
+	}
+	for enc := conformancev1.Compression(1); enc <= 6; enc++ {
+		name := verifkit.CompressionName(enc)
+		newComp, newDec := vfConstructors(enc)
+		for _, size := range sizes {
+			for pi, pattern := range [][]byte{{0}, []byte("0123456789abcdef-pattern;")} {
+				if pi == 1 && size != 9<<20 {
+					continue
+				}
+				msg := bytes.Repeat(pattern, size/len(pattern)+1)[:size]
+				p := &vfPool{newComp: newComp, newDec: newDec}
+				z, err := p.compress(msg)
+				if err != nil {
+					rep.Violation("compress/"+name+"/large/compress-error", err.Error(), nil)
+					continue
+				}
+				for uses := 0; uses <= 2; uses++ {
+					for _, srcKind := range []string{"bytes.Buffer", "bytes.Reader", "plain io.Reader"} {
+						rep.Eval(1)
+						rep.DistinctKey(name, uses, size, pi, srcKind)
+						q := &vfPool{newComp: newComp, newDec: newDec}
+						small, _ := verifkit.IndepCompress(name, []byte("warm-up"))
+						for u := 0; u < uses; u++ {
+							if out, err := q.decompress(small); err != nil || string(out) != "warm-up" {
+								rep.Violation("compress/"+name+"/large/warm-up-failed", fmt.Sprint(err), nil)
+							}
+						}
+						if q.dec == nil {
+							q.dec = newDec()
+						}
+						var src io.Reader
+						switch srcKind {
+						case "bytes.Buffer":
+							src = bytes.NewBuffer(append([]byte(nil), z...))
+						case "bytes.Reader":
+							src = bytes.NewReader(z)
+						default:
+							src = struct{ io.Reader }{bytes.NewReader(z)}
+						}
+						w := map[string]any{"encoding": name, "decoded_bytes": size, "compressed_bytes": len(z), "earlier_uses_of_the_instance": uses, "source": srcKind}
+						var out bytes.Buffer
+						var derr error
+						pn := verifkit.Catch(func() {
+							if derr = q.dec.Reset(src); derr == nil {
+								_, derr = out.ReadFrom(q.dec)
+							}
+						})
+						if pn != nil {
+							rep.Violation("compress/"+name+"/large/panic/"+pn.Site, pn.Value, w)
+							continue
+						}
+						if derr != nil || out.Len() != len(msg) || !bytes.Equal(out.Bytes(), msg) {
+							rep.Violation("compress/"+name+"/large/decode-differs-after-reuse", fmt.Sprintf("%d MiB message (%d bytes on the wire) decoded by an instance used %d times before, from a %s: %d bytes, err %v", size>>20, len(z), uses, srcKind, out.Len(), derr), w)
+						} else {
+							rep.Count("large_decodes_ok", 1)
+						}
+					}
+				}
+			}
+		}
+	}
+	rep.Sample(map[string]any{"encoding": "zstd", "decoded": "9 MiB of zeros (a few hundred bytes on the wire)", "instance": "closed and parked once", "source": "*bytes.Buffer", "expect": "9 MiB back"})
+	rep.RequireMin("large_decodes_ok", 50)
+}
